@@ -106,9 +106,18 @@ func srtGenModelN(r *fw.Rand, n int) []srtCue {
 		if e >= 100*3600000 {
 			e = 100*3600000 - 1
 		}
+		if k > 0 && r.P(1, 8) {
+			s, e = cs[k-1].Start, cs[k-1].End // two cues shown over the same interval
+		}
 		c := srtCue{Start: s, End: e, Index: k + 1}
 		if r.P(1, 6) {
 			c.Index = r.Range(1, 99999)
+		}
+		if k > 0 && r.P(1, 10) {
+			// the same text (and markup) as the cue before
+			c.Lines = cs[k-1].Lines
+			cs[k] = c
+			continue
 		}
 		for l := 0; l < r.Range(1, 4); l++ {
 			txt := genText(r, textOpts{amp: true, lt: true, gt: true, nbsp: true, braces: true, comma: true, ampEntity: true, maxWords: 5})
